@@ -1041,6 +1041,23 @@ def _nonneg(e):
 
 def array_store(ev, obj: Num, idx, v, fr, node):
     """x[idx] = v on an array term: logged for coverage rules; the term itself is kept."""
+    # a Boolean mask among the indices must match the extents of the axes it stands for exactly (masks do not broadcast):
+    # x[:, mask] with x of shape (N, 4, 2) and a mask of shape (4, 1) is an IndexError
+    items = idx.items if isinstance(idx, TupleV) else [idx]
+    if obj.shape is not None:
+        pos = 0
+        for it in items:
+            if isinstance(it, NdArr) and it.items and all(isinstance(e, BoolV) for e in it.items):
+                dims = obj.shape[pos:pos + it.ndim]
+                if len(dims) == it.ndim and all(sp.sympify(d_).is_number for d_ in dims) and tuple(int(sp.sympify(d_)) for d_ in dims) != tuple(it.shape):
+                    from .symeval import Raised
+                    raise Raised("IndexError", node, f"boolean index did not match indexed array: mask shape {tuple(it.shape)}, axes {tuple(dims)}",
+                                 origin=(fr.fi.qualname if fr is not None and getattr(fr, "fi", None) is not None else None))
+                pos += it.ndim
+            elif isinstance(it, NoneV):
+                continue
+            else:
+                pos += 1
     ev.trace.append(("store", obj, idx, v, node))
 
 
@@ -1207,6 +1224,14 @@ def num_getattr(ev, obj: Num, name, fr, node):
     if name == "unit":
         if obj.unit is not None:
             return Num(obj.unit, kind="quantity", unit=obj.unit, tag="unit")
+        if obj.kind == "quantity":
+            # the unit the caller's Quantity happens to be held in: unknown, but the same for every read of this quantity; it has the
+            # quantity's dimension (so conversions to it are dimensionally sound) and an unknown positive scale
+            d_ = dim_of(obj.expr)
+            if d_ is not None:
+                usym = sp.Symbol("unitof_" + "".join(c if c.isalnum() else "_" for c in str(obj.expr))[:40], positive=True)
+                base = sp.Mul(*[k_ ** v_ for k_, v_ in d_.items()]) if d_ else sp.Integer(1)
+                return Num(usym * base, kind="quantity", unit=usym * base, tag="unit")
         ev.unsupported("unit of a quantity whose representation unit is unknown", node, fr)
     if name == "physical_type":
         d = dim_of(obj.expr)
@@ -3177,6 +3202,10 @@ def h_quantity(ev, args, kwargs, fr, node, angle=False):
     unit = kwargs.get("unit", args[1] if len(args) > 1 else NONE)
     cp = kwargs.get("copy", NONE)
     ev.trace.append(("quantity-ctor", "Angle" if angle else "Quantity", x, cp, node))
+    dt_ = kwargs.get("dtype")
+    if dt_ is not None and not isinstance(dt_, NoneV) and not (isinstance(dt_, ExtV) and dt_.dotted in ("numpy.float64", "builtins.float", "numpy.complex128")):
+        # Quantity(value, unit, dtype=X): the value is CAST to X -- rounding to single precision, truncation to an integer type
+        ev.trace.append(("quantity-dtype", norm(node)[:80] if node is not None else "", dt_))
     if isinstance(x, (StrV, DictV)) or isinstance(x, NoneV):
         raise Raised("TypeError", node, "cannot build a Quantity from this value")
     if isinstance(x, (ListV, TupleV)):
